@@ -198,7 +198,13 @@ public:
 #if _MSC_VER
 #pragma intrinsic(__rdtsc)
 #endif
+#if ONETBB_VERIF
+extern "C" std::uint64_t (*onetbb_verif_time_hook)();
+#endif
 inline std::uint64_t machine_time_stamp() {
+#if ONETBB_VERIF
+    if (onetbb_verif_time_hook) return onetbb_verif_time_hook();
+#endif
 #if __INTEL_COMPILER
     return _rdtsc();
 #elif _MSC_VER
